@@ -57,6 +57,7 @@ struct Slot {
     std::unique_ptr<Async::Promise<TV>> pvec;   // iterator-range whenAll
     std::unique_ptr<Async::Promise<Async::Any>> pa;
     std::shared_ptr<Async::Deferred<MV>> def;   // resolver/rejection kept by the program
+    std::shared_ptr<Async::Deferred<void>> defv; // the same for a Promise<void> (op newv)
     bool movedOut = false;
     Async::PromiseBase* base() {
         if (pi) return pi.get(); if (pv) return pv.get(); if (p1) return p1.get(); if (p2) return p2.get(); if (p3) return p3.get(); if (p4) return p4.get(); if (pvec) return pvec.get(); if (pa) return pa.get();
@@ -118,6 +119,36 @@ struct Interp {
         return attachWith<V>(p, cb, kind, karg, [this, rejcb](std::exception_ptr e) { ev("r" + std::to_string(rejcb) + "(" + std::to_string(excId(e)) + ")"); });
     }
 
+    // continuations of a Promise<void>: they take no argument (logged as 0); separate specialisations of Continuation in async.h
+    template <typename RejF>
+    Slot attachVoidWith(Async::Promise<void>& p, int cb, const std::string& kind, long karg, RejF rejf)
+    {
+        Slot out;
+        if (kind == "val") {
+            auto d = p.then([this, cb, karg]() -> MV { ev("c" + std::to_string(cb) + "(0)"); return MV(static_cast<int>(karg)); }, rejf);
+            out.pi = std::make_unique<Async::Promise<MV>>(std::move(d));
+        } else if (kind == "void") {
+            auto d = p.then([this, cb]() -> void { ev("c" + std::to_string(cb) + "(0)"); }, rejf);
+            out.pv = std::make_unique<Async::Promise<void>>(std::move(d));
+        } else {
+            auto d = p.then([this, cb, karg]() -> Async::Promise<MV> {
+                ev("c" + std::to_string(cb) + "(0)");
+                Slot& s = slots.at(static_cast<size_t>(karg));
+                if (!s.pi || s.movedOut) return Async::Promise<MV>::resolved(MV(-999));
+                s.movedOut = true;
+                return std::move(*s.pi);
+            }, rejf);
+            out.pi = std::make_unique<Async::Promise<MV>>(std::move(d));
+        }
+        return out;
+    }
+    Slot attachVoid(Async::Promise<void>& p, int cb, const std::string& kind, long karg, const std::string& rej, int rejcb)
+    {
+        if (rej == "ign") return attachVoidWith(p, cb, kind, karg, Async::IgnoreException);
+        if (rej == "rth") return attachVoidWith(p, cb, kind, karg, Async::Throw);
+        return attachVoidWith(p, cb, kind, karg, [this, rejcb](std::exception_ptr e) { ev("r" + std::to_string(rejcb) + "(" + std::to_string(excId(e)) + ")"); });
+    }
+
     std::string stateOf(Slot& s)
     {
         auto* b = s.base();
@@ -155,7 +186,7 @@ struct Lifetimes {
             else if ((a[0] == "all" || a[0] == "any" || a[0] == "allr") && a.size() >= 2) {
                 std::stringstream ss(a[1]); std::string t; while (std::getline(ss, t, ',')) use(atol(t.c_str()), opi);
             }
-            if (a[0] == "new" || a[0] == "res" || a[0] == "rej" || a[0] == "then" || a[0] == "all" || a[0] == "any" || a[0] == "allr") {
+            if (a[0] == "new" || a[0] == "newv" || a[0] == "res" || a[0] == "rej" || a[0] == "then" || a[0] == "all" || a[0] == "any" || a[0] == "allr") {
                 lastUse.push_back(opi); pinned.push_back(false);
             }
             ++opi;
@@ -173,7 +204,7 @@ static std::string runProg(const std::vector<std::string>& w, bool drop)
             for (size_t s = 0; s < in.slots.size() && s < life.lastUse.size(); ++s) {
                 if (life.lastUse[s] != opi) continue;
                 Slot& sl = in.slots[s];
-                sl.def.reset();
+                sl.def.reset(); sl.defv.reset();
                 if (life.pinned[s]) continue;     // its promise object belongs to the callback that will return it
                 sl.pi.reset(); sl.pv.reset(); sl.p1.reset(); sl.p2.reset(); sl.p3.reset(); sl.p4.reset(); sl.pvec.reset(); sl.pa.reset();
             }
@@ -193,6 +224,10 @@ static std::string runProg(const std::vector<std::string>& w, bool drop)
                     Slot s; auto def = std::make_shared<Async::Deferred<MV>>();
                     s.pi = std::make_unique<Async::Promise<MV>>([&](Async::Resolver& r, Async::Rejection& j) { *def = Async::Deferred<MV>(std::move(r), std::move(j)); });
                     s.def = def; in.slots.push_back(std::move(s)); out("c" + std::to_string(in.slots.size() - 1));
+                } else if (a[0] == "newv") {
+                    Slot s; auto def = std::make_shared<Async::Deferred<void>>();
+                    s.pv = std::make_unique<Async::Promise<void>>([&](Async::Resolver& r, Async::Rejection& j) { *def = Async::Deferred<void>(std::move(r), std::move(j)); });
+                    s.defv = def; in.slots.push_back(std::move(s)); out("c" + std::to_string(in.slots.size() - 1));
                 } else if (a[0] == "res") {
                     Slot s; s.pi = std::make_unique<Async::Promise<MV>>(Async::Promise<MV>::resolved(MV(atoi(a[1].c_str()))));
                     in.slots.push_back(std::move(s)); out("c" + std::to_string(in.slots.size() - 1));
@@ -211,6 +246,7 @@ static std::string runProg(const std::vector<std::string>& w, bool drop)
                     Slot d;
                     Slot& spr = in.slots[p];
                     if (spr.pi) d = in.attach<MV>(*spr.pi, cb, kind, karg, rej, rejcb);
+                    else if (spr.pv) d = in.attachVoid(*spr.pv, cb, kind, karg, rej, rejcb);
                     else if (spr.p1) d = in.attach<T1>(*spr.p1, cb, kind, karg, rej, rejcb);
                     else if (spr.p2) d = in.attach<T2>(*spr.p2, cb, kind, karg, rej, rejcb);
                     else if (spr.p3) d = in.attach<T3>(*spr.p3, cb, kind, karg, rej, rejcb);
@@ -223,10 +259,12 @@ static std::string runProg(const std::vector<std::string>& w, bool drop)
                     out("c" + std::to_string(di));
                 } else if (a[0] == "resolve") {
                     long p = atol(a[1].c_str());
+                    if (p >= 0 && static_cast<size_t>(p) < in.slots.size() && in.slots[p].defv) { in.slots[p].defv->resolve(); out("ok"); continue; }
                     if (p < 0 || static_cast<size_t>(p) >= in.slots.size() || !in.slots[p].def) return "bad-prog";
                     in.slots[p].def->resolve(MV(atoi(a[2].c_str()))); out("ok");
                 } else if (a[0] == "reject") {
                     long p = atol(a[1].c_str());
+                    if (p >= 0 && static_cast<size_t>(p) < in.slots.size() && in.slots[p].defv) { in.slots[p].defv->reject(Ex { atoi(a[2].c_str()) }); out("ok"); continue; }
                     if (p < 0 || static_cast<size_t>(p) >= in.slots.size() || !in.slots[p].def) return "bad-prog";
                     in.slots[p].def->reject(Ex { atoi(a[2].c_str()) }); out("ok");
                 } else if (a[0] == "all" || a[0] == "any" || a[0] == "allr") {
